@@ -135,6 +135,15 @@ class SubQueryLineageHolder(ColumnLineageMixin):
         """
         if self.write:
             tgt_tbl = list(self.write)[0]
+            # a later specification replaces an earlier one that is not wired to any source yet,
+            # so that an explicit column list in DML wins over target table columns from metadata
+            self.graph.remove_nodes_from(
+                [
+                    col
+                    for _, col, edge_type in self.graph.out_edges(tgt_tbl, data="type")
+                    if edge_type == EdgeType.HAS_COLUMN and self.graph.degree[col] == 1
+                ]
+            )
             for idx, tgt_col in enumerate(tgt_cols):
                 tgt_col.parent = tgt_tbl
                 self.graph.add_edge(
